@@ -124,10 +124,16 @@ pub fn run_history(start: u64, hist: &[Raw], drops: &[Option<usize>], wellformed
             if got != expect_obs {
                 res.violate(
                     if got.len() == expect_obs.len() { "wrong_outcome_or_tag" } else { "early_or_late_emission" },
-                    format!(
-                        "start {}, history {:?}, drops {:?}: call {} ({:?}) emitted {:?}, reference {:?}",
-                        start, hist, drops, i, raw, got, expect_obs
-                    ),
+                    {
+                        // the first difference first (histories can be thousands of items long)
+                        let k = got.iter().zip(expect_obs.iter()).position(|(a, b)| a != b).unwrap_or(got.len().min(expect_obs.len()));
+                        let clip = |v: &[(u64, bool, bool)]| format!("{:?}{}", &v[..v.len().min(12)], if v.len() > 12 { format!(" ... ({} items)", v.len()) } else { String::new() });
+                        format!(
+                            "start {}: call {} ({:?}) emitted {} items, reference {}; first difference at item {}: emitted {:?}, reference {:?}; emitted {}; reference {}; history {}; drops {:?}",
+                            start, i, raw, got.len(), expect_obs.len(), k, got.get(k), expect_obs.get(k), clip(&got), clip(expect_obs),
+                            format!("{:?}", hist).chars().take(1500).collect::<String>(), &drops[..drops.len().min(40)]
+                        )
+                    },
                 );
                 return;
             }
@@ -257,15 +263,43 @@ pub fn run(rc: &mut RunCtx) {
         let mut res = CaseResult::new(id);
         let mut r = Rng::for_case(seed, 14, 5000 + i);
         let ntags = r.usize(1, if i % 10 == 0 { 200 } else { 30 });
+        let backlog = !rc.miri() && i % 200 == 7;
         let start = match r.below(4) {
             0 => 1,
             1 => r.range(1, 1 << 40),
-            2 => u64::MAX - 1 - ntags as u64 - r.range(1, 5),
+            2 => u64::MAX - 1 - (if backlog { 4100 } else { ntags as u64 }) - r.range(1, 5),
             _ => r.range(1, 100),
         };
         // random well-formed history
         let mut uncovered: Vec<usize> = (0..ntags).collect();
         let mut hist: Vec<Raw> = Vec::new();
+        if backlog {
+            // a long backlog: thousands of tags confirmed singly while the first few are
+            // still outstanding, then those (singly, or by a multiple that also covers some
+            // of the waiting ones)
+            let big = r.usize(1100, 4000);
+            let hold = r.usize(1, 3);
+            // one more tag, a little higher up, is also still outstanding: a multiple on it
+            // covers the first few and walks over waiting ones that keep their own outcome
+            let gap = hold + r.usize(0, 50);
+            let mut waiting: Vec<usize> = (hold..big).filter(|t| *t != gap).collect();
+            if r.bool() {
+                r.shuffle(&mut waiting);
+            }
+            for t in waiting {
+                hist.push((start + t as u64, false, !r.chance(1, 4)));
+            }
+            if r.bool() {
+                hist.push((start + gap as u64, true, !r.chance(1, 4)));
+            } else {
+                hist.push((start + gap as u64, false, !r.chance(1, 4)));
+                for t in (0..hold).rev() {
+                    hist.push((start + t as u64, false, !r.chance(1, 4)));
+                }
+            }
+            uncovered.clear();
+            res.tags.insert("backlog of more than a thousand waiting tags".to_string());
+        }
         while !uncovered.is_empty() {
             let k = if r.chance(1, 3) { 0 } else { r.usize(0, uncovered.len() - 1).min(r.usize(0, 6)) };
             let t = uncovered[k];
